@@ -980,6 +980,21 @@ Example FHVST_hyps_sat : FHVST_bounds 2 1 0 /\ FHVST_pressure_def 2 1 0 1 /\ FHV
 Proof. exact FHVST_hyps_sat. Qed.
 Print Assumptions FHVST_hyps_sat.
 
+(* loading obtained by numerical inversion is strictly increasing in the pressure (any roots in the physical range) *)
+Theorem FHVST_loading_increasing : forall n_m K a1v p q x y,
+  FHVST_bounds n_m K a1v -> 0 < n_m -> 0 < K -> -1 < a1v ->
+  0 <= x < n_m -> 0 <= y < n_m ->
+  FHVST_loading_spec n_m K a1v p x -> FHVST_loading_spec n_m K a1v q y -> p < q -> x < y.
+Proof. exact FHVST_loading_increasing. Qed.
+Print Assumptions FHVST_loading_increasing.
+
+Theorem Virial_loading_increasing : forall K A B C p q x y,
+  Virial_bounds K A B C -> 0 < K -> 0 <= A -> 0 <= B -> 0 <= C ->
+  0 <= x -> 0 <= y ->
+  Virial_loading_spec K A B C p x -> Virial_loading_spec K A B C q y -> p < q -> x < y.
+Proof. exact Virial_loading_increasing. Qed.
+Print Assumptions Virial_loading_increasing.
+
 (* ======== ZeroPoint: the four models whose pressure() ends with the nan_to_num guard ======== *)
 (* For EVERY parameter vector inside the declared bounds - including the degenerate points C = N, C = 1, Kb = 0, K = 0, n_m = 0 where
    the quotient is 0/0 - the zero point is mapped to itself in both orders, with all sqrt / denominator side conditions proved.
